@@ -4,7 +4,7 @@
 set -e
 cd /repo
 if [ ! -f _build/build.ninja ] && [ ! -f _build/Makefile ]; then
-	cmake -G Ninja -B _build -DCMAKE_BUILD_TYPE=RelWithDebInfo . >/dev/null
+	cmake -G Ninja -B _build -DCMAKE_BUILD_TYPE=RelWithDebInfo -DUNIT_TESTING=ON . >/dev/null
 fi
 if grep -rq "RTRLIB_VERIF" _build/CMakeCache.txt 2>/dev/null; then
 	echo "guard leaked into the build configuration"; exit 1
